@@ -6,6 +6,11 @@ mod clock;
 mod convert;
 mod direct;
 mod direct2;
+mod d_c07;
+mod d_c09;
+mod d_c14;
+mod d_c19;
+mod d_c20;
 mod explore;
 mod families;
 mod mqtt_ref;
